@@ -231,7 +231,7 @@ impl StringPool {
             self.strings.iter_mut().enumerate()
         {
             if *refcount == 0 {
-                debug_assert_eq!(st, "");
+                // (A malformed file may have text in an unreferenced entry.)
                 *st = string;
                 *refcount = 1;
                 self.is_modified = true;
@@ -263,15 +263,15 @@ impl StringPool {
     pub fn decref(&mut self, string_ref: StringRef) {
         let index = string_ref.index();
         if index >= self.strings.len() {
-            panic!(
-                "decref: string_ref {} invalid, pool has only {} entries",
-                string_ref.number(),
-                self.strings.len()
-            );
+            // A malformed file can contain references to strings that are not
+            // in the pool; there is nothing to release for those.
+            return;
         }
         let (ref mut string, ref mut refcount) = self.strings[index];
         if *refcount < 1 {
-            panic!("decref: string refcount is already zero");
+            // Likewise, a malformed file can have more references to a string
+            // than the string's refcount says.
+            return;
         }
         self.is_modified = true;
         *refcount -= 1;
